@@ -980,6 +980,7 @@ pub(crate) mod v_socket_tcp {
         let app = txs;
         let mut s = Socket::new(SocketBuffer::new(&mut rxs[..]), SocketBuffer::new(&mut txs[..]));
         let g = any_sync_socket(&mut s, now, app, false);
+        kani::assume(!pending(&s) || deadline_finite(&mut s, cx));
         let nowi = Instant::from_millis(now);
         let d = s.poll_at(cx);
         let early = match d {
@@ -1012,7 +1013,7 @@ pub(crate) mod v_socket_tcp {
         }
         if !early && pending(&s) && s.state == g.state {
             // C02 L2 (safety core): at or after the deadline something observable happens or a later finite deadline is armed
-            crate::vassert!(seen || s.poll_at(cx) != PollAt::Ingress, "prop:c02_deadline_leads_to_transmission_or_new_deadline");
+            crate::vassert!(seen || deadline_finite(&mut s, cx), "prop:c02_deadline_leads_to_transmission_or_new_deadline");
         }
         kani::cover!(early && matches!(d, PollAt::Time(_)), "polled before a timed deadline");
         kani::cover!(!early && seen && e_seglen > 0, "deadline reached: sequence space (re)transmitted");
